@@ -149,6 +149,17 @@ def gen_programs(rng, pairs_everywhere):
         if len(programs[o]) < 10:
             rec = rng.choice((H.thd_data(100 * (o + 1), 10 + kt), H.A('TRACE_DATA_NEWTHREAD', H.NONE, (10 + kt, 100 * (o + 1), 0, 0))))
             programs[o].insert(rng.randrange(len(programs[o]) + 1), rec)
+    if rng.random() < 0.35 and nthreads >= 2:
+        # two processes of the same NAME (two shells, two helpers) under different pids, announced by different threads;
+        # one of the threads later reports that a process of that name exits.  A name is a text, not a key: what a
+        # thread learned from its own pair is its own
+        a, b = rng.sample(range(nthreads), 2)
+        text = rng.choice((b'sh', b'helper', b'launchd'))
+        for t in (a, b):
+            if len(programs[t]) < 9:
+                programs[t] = programs[t] + H.exec_pair(100 * (t + 1) + 7, text, rng.choice((H.NONE, H.ALL)))
+        if len(programs[b]) < 11:
+            programs[b] = programs[b] + [H.A('TRACE_STRING_PROC_EXIT', rng.choice((H.NONE, H.ALL)), H.name32(text))]
     return programs, tids
 
 
